@@ -379,6 +379,12 @@ impl System for VSystem
             targets = cmd.tg.clone();
             self.fs.lock().unwrap().in_command = Some(rid.clone());
             seen = cmd.src.iter().map(|s| self.get(s).unwrap_or("MISSING".to_string())).collect();
+            if cmd.kind == "kill"
+            {
+                out.push(Ok(CommandLineOutput{out : "".to_string(), err : "killed".to_string(), code : None, success : false})); all_ok = false;
+                self.fs.lock().unwrap().in_command = None;
+                continue;
+            }
             if cmd.kind == "fail" || seen.iter().any(|c| c == "MISSING")
             {
                 out.push(Ok(bad())); all_ok = false;
